@@ -88,7 +88,7 @@ def norm_self(s):
 SKIP_M = {'map_err', 'into', 'as_bytes', 'borrow_mut', 'as_mut', 'as_ref', 'clone', 'to_owned', 'by_ref'}
 
 
-def events(fn_node, reference=False):
+def events(fn_node, reference=False, helpers=None, _depth=0):
     out = []
 
     def pat(p):
@@ -105,6 +105,28 @@ def events(fn_node, reference=False):
         k = x.get('k')
         if k == 'mcall':
             go(x.get('recv'))
+            if helpers and x['method'] in helpers and _depth < 3:
+                # a private helper of the port (no counterpart in the reference): its events take the place of the call; closures passed
+                # to it run inside it - their events are spliced where the helper calls its parameter
+                hn = helpers[x['method']]
+                cl = [a for a in (x.get('args') or []) if isinstance(a, dict) and a.get('k') == 'closure']
+                other = [a for a in (x.get('args') or []) if not (isinstance(a, dict) and a.get('k') == 'closure')]
+                go(other)
+                sub = events(hn, reference, helpers, _depth + 1)
+                if cl:
+                    params = [p.split(':')[0].strip() for p in hn.get('params') or []]
+                    ce = events({'body': cl[0].get('body')}, reference, helpers, _depth + 1)
+                    spliced = []
+                    done = False
+                    for e in sub:
+                        if not done and e in params:
+                            spliced.extend(ce)
+                            done = True
+                        else:
+                            spliced.append(e)
+                    sub = spliced if done else ce + sub
+                out.extend(sub)
+                return
             go(x.get('args'))
             if x['method'] not in SKIP_M:
                 out.append(x['method'])
@@ -119,6 +141,8 @@ def events(fn_node, reference=False):
                 # drop the event produced by the error constructor call inside
                 while out and out[-2:-1] and out[-2] in ('key_must_be_a_string', 'float_key_must_be_finite'):
                     del out[-2]
+            elif helpers and last in helpers and _depth < 3:
+                out.extend(events(helpers[last], reference, helpers, _depth + 1))
             elif last not in ('Ok', 'Some', 'Box::new', 'new', 'from', 'Error::io', 'io'):
                 out.append(last)
             return
@@ -186,6 +210,18 @@ def check_translation(fx, rep):
     ours = table(fx.tpl, 'zlink-core/src/json_ser.rs')
     theirs = table(ref, 'src/ser.rs')
     n_same = 0
+    # private helpers of the port: inherent / free functions of json_ser.rs whose name no function of the reference has
+    ref_names = {k[2] for k in theirs}
+    for (tr_, st_, name_), (f_, n_) in theirs.items():
+        for x in A.nodes(n_.get('body') or []):
+            if x.get('k') == 'mcall':
+                ref_names.add(x.get('method'))
+            elif x.get('k') == 'call':
+                ref_names.add((x['func'] if isinstance(x['func'], str) else A.text(x['func'])).split('::')[-1])
+    port_helpers = {}
+    for (tr_, st_, name_), (f_, n_) in ours.items():
+        if tr_ is None and name_ not in ref_names and name_ not in ('new', 'with_formatter', 'to_slice'):
+            port_helpers[name_] = n_
     for key, (f, n) in sorted(ours.items(), key=str):
         tr, st, name = key
         if tr is None or tr in ('Display', 'Write', 'ser::Error', 'Debug', 'Default', 'Clone'):
@@ -195,7 +231,7 @@ def check_translation(fx, rep):
         if key not in theirs:
             rep.bad('E7', k + '|not-in-reference', where, 'method %s::%s of %s has no counterpart in serde_json %s' % (tr, name, st, ver))
             continue
-        a, b = events(n), events(theirs[key][1], reference=True)
+        a, b = events(n, helpers=port_helpers), events(theirs[key][1], reference=True)
         if key in DEVIATIONS:
             # a listed deviation must still be what the table says: a refusal, or the direct escape call
             ok = a == ['refuse'] or a == b or (name == 'serialize_str' and a == ['format_escaped_str']) or name == 'write_char_escape' or \
@@ -462,6 +498,19 @@ def check(fx, rep, tier):
                             det['nonfinite_writes_null'] = all(any(w in body.reachable(x) for w in wn) for x in nonfinite)
                             det['finite_reaches_write_float'] = any(w in body.reachable(t['otherwise']) for w in wf) or any(w in body.reachable(arms.get(k_)) for k_ in (2, 3, 4) if arms.get(k_) is not None for w in wf)
                 ok = det.get('nonfinite_reaches_write_float') is False and det.get('nonfinite_writes_null') and det.get('finite_reaches_write_float')
+                if not ok:
+                    # the same decision written as `if value.is_finite() { write_f* } else { write_null }`
+                    for sw in range(body.n):
+                        if body.is_cleanup(sw) or body.term(sw)['k'] != 'switch':
+                            continue
+                        info = body.switch_info(sw)
+                        if info and info.get('kind') == 'bool' and info['src'].get('kind') == 'call' and info['src']['callee'].get('name') == 'is_finite':
+                            fin, non = info['true'], info['false']
+                            det2 = {'nonfinite_reaches_write_float': any(w in body.reachable(non) for w in wf),
+                                    'nonfinite_writes_null': any(w in body.reachable(non) for w in wn),
+                                    'finite_reaches_write_float': any(w in body.reachable(fin) for w in wf), 'idiom': 'is_finite'}
+                            if det2['nonfinite_reaches_write_float'] is False and det2['nonfinite_writes_null'] and det2['finite_reaches_write_float']:
+                                ok, det = True, det2
             rep.check(ok, 'E5', 'float|%s|%s' % (body.path.split('::')[-1], cfg), body.where(), 'NaN / infinite take the write_null arm, finite values the ryu writer',
                       'the float writer is not guarded by the classify() test as (NaN|Infinite -> null, otherwise -> write_f*): %s' % det, det)
         rep.floor('E5', 2, 'float serializer methods')
